@@ -28,6 +28,14 @@ theorem init_is_good (g : Cycles.GoodCfg) (pstep thr : Rat) (cache : Bool) (ph :
   rw [cycleStat_any_cache _ false .cycle _ _ _ h0.cv _ (fun _ => init0_cv_length pstep thr cache ph)]
   simp [cycleStat, lookupStat, nLabels_eq h0.cv.1]
 
+/-- A new container has no selection, so `chain_ind` tracking and condition tracking start out true. -/
+theorem init_no_selection (F : List Char → Option Rat) (g : Cycles.GoodCfg) (pstep thr : Rat) (cache : Bool) (ph : List Rat) :
+    (init g pstep thr cache ph).1.sel = none ∧ Tracked (init g pstep thr cache ph).1 ∧
+      Synced F (init g pstep thr cache ph).1 := by
+  have h : (init g pstep thr cache ph).1.sel = none := by
+    rw [init_eq, computeMetric_ok _ (init0_inv pstep thr cache ph)]; rfl
+  exact ⟨h, fun sel hs => by rw [h] at hs; cases hs, fun sel hs => by rw [h] at hs; cases hs⟩
+
 /-- Every operation preserves the invariant. -/
 theorem Inv_step (F : List Char → Option Rat) (s : State) (op : Op) (h : Inv s) : Inv (step F s op).1 :=
   step_inv F s op h
@@ -48,6 +56,10 @@ theorem Inv_run (F : List Char → Option Rat) (g : Cycles.GoodCfg) (pstep thr :
     rw [init_eq]; unfold HasGood
     rw [computeMetric_ok _ (init0_inv pstep thr cache ph), sget_sset_same]; rfl
   exact ⟨hI.lens, hI.names, hG, fun sel hs => ⟨(hI.sel sel hs).len, (hI.sel sel hs).rank, (hI.sel sel hs).chain⟩⟩
+
+/-- The invariant is preserved along every operation sequence, from every state that satisfies it. -/
+theorem Inv_run_from (F : List Char → Option Rat) (s : State) (ops : List Op) (h : Inv s) : Inv (run F s ops) :=
+  run_inv F s ops h
 
 /-- The length guard: a metric with the wrong number of entries is rejected and nothing changes. -/
 theorem add_metric_guard (F : List Char → Option Rat) (s : State) (name : Name) (v : List Val) (h : v.length ≠ s.K) :
@@ -264,8 +276,8 @@ theorem selection_tracks_conditions (F : List Char → Option Rat) (s : State) (
     Synced F (step F s op).1 :=
   synced_step F s op hI h hop hpick
 
-/-- A chain metric: every selected cycle carries f of all samples of its chain, every other cycle
-    NaN (or -1 on the integer route). -/
+/-- A chain metric: every selected cycle carries f of all samples of its chain (truncated to an integer
+    on the dtype=int route), every other cycle NaN (-1 on the integer route). -/
 theorem chain_metric_value (F : List Char → Option Rat) (s : State) (h : Inv s) (sel : Sel) (hs : s.sel = some sel)
     (name : Name) (vals : List Rat) (f : List Rat → Rat) (asInt : Bool) :
     (step F s (.computeChainMetric name vals f asInt)).2 = .ok .done ∧
@@ -273,13 +285,14 @@ theorem chain_metric_value (F : List Char → Option Rat) (s : State) (h : Inv s
       ∀ (k : Nat) (j : Int), sel.subset[k]? = some j →
         col[k]? = some (if 0 ≤ j then
             (match sel.chain[j.toNat]? with
-             | some c => some (f (chainSamples s.cv sel.subset sel.chain vals c))
+             | some c => some (if asInt then truncR (f (chainSamples s.cv sel.subset sel.chain vals c))
+                               else f (chainSamples s.cv sel.subset sel.chain vals c))
              | none => if asInt then some (-1) else none)
           else if asInt then some (-1) else none) := by
   have hl : ∀ v : List Val, v = projChainToCycles (chainStat f s.cv sel.subset sel.chain vals) sel.chain sel.subset →
-      (if asInt then nanToMinusOne v else v).length = s.K := by
+      (if asInt then toIntVals v else v).length = s.K := by
     intro v hv; subst hv
-    cases asInt <;> simp [nanToMinusOne, projChainToCycles, projSubsetToCycles, (h.sel sel hs).len]
+    cases asInt <;> simp [toIntVals, projChainToCycles, projSubsetToCycles, (h.sel sel hs).len]
   simp only [step, computeChainMetric, hs]
   rw [addMetric_ok _ _ _ (hl _ rfl)]
   refine ⟨rfl, _, sget_sset_same _ _ _, ?_⟩
@@ -298,7 +311,7 @@ theorem chain_metric_value (F : List Char → Option Rat) (s : State) (h : Inv s
     · simp [h0]
   cases asInt
   · simp only [Bool.false_eq_true, ite_false, hproj]
-  · simp only [ite_true, nanToMinusOne, List.getElem?_map, hproj, Option.map_some]
+  · simp only [ite_true, toIntVals, List.getElem?_map, hproj, Option.map_some]
     by_cases h0 : 0 ≤ j
     · simp only [h0, ite_true]
       cases sel.chain[j.toNat]? <;> rfl
